@@ -84,6 +84,13 @@ pub fn run(prop: &'static str, tier: &str, seed: u64) -> i32 {
     let mode_s = mode.to_string();
     let results = run_cases(batches as usize, par.min(workers()), move |b| run_worker(&mode_s, seed, b as u64 * per_worker, per_worker));
     let mut classes = std::collections::BTreeSet::new();
+    let mut results = results;
+    if prop == "C02" {
+        // the same property through the HTTP front end (parallel connections, NDJSON and SSE pollers)
+        let n_http = if t { 40 } else { 6 };
+        let http: Vec<Value> = run_cases(n_http, 4, move |i| crate::e2h::http_round(crate::rng::mix(seed, 77_000 + i as u64)));
+        results.push(http);
+    }
     for batch in results {
         for r in batch {
             if let Some(e) = r.get("worker_error") {
@@ -118,6 +125,9 @@ pub fn run(prop: &'static str, tier: &str, seed: u64) -> i32 {
             if let Some(s) = r["shape"].as_str() {
                 rep.seen("shapes", s);
             }
+            if r["http_round"] == true {
+                rep.count("http_rounds", 1);
+            }
             if r["lagged"] == true {
                 rep.count("slow_rounds_that_lagged", 1);
             }
@@ -140,7 +150,7 @@ pub fn run(prop: &'static str, tier: &str, seed: u64) -> i32 {
                 if props.iter().any(|p| p == prop) {
                     rep.violation(
                         format!("{}/{}", prop, v["signature"].as_str().unwrap_or("?")),
-                        json!({"engine": "E2", "mode": mode, "round_seed": r["seed"], "config": r["config"], "finding": v["detail"], "refutes": props}),
+                        json!({"engine": "E2", "mode": r["mode"], "round_seed": r["seed"], "config": r["config"], "finding": v["detail"], "refutes": props}),
                     );
                 }
             }
@@ -151,6 +161,7 @@ pub fn run(prop: &'static str, tier: &str, seed: u64) -> i32 {
     if prop == "C02" {
         rep.require("appends overlapped in time", rep.counters.get("overlapping_appends").copied().unwrap_or(0) > 0);
         rep.require("ordered snapshot pairs compared", rep.counters.get("snapshot_pairs").copied().unwrap_or(0) > 0);
+        rep.require("http rounds", rep.counters.get("http_rounds").copied().unwrap_or(0) > 0);
     }
     if prop == "C03" {
         rep.require("appends overlapped the read() call", rep.counters.get("window_hits").copied().unwrap_or(0) > 0);
